@@ -26,8 +26,10 @@ MANIFEST = {
     "technique": "Lean 4 proof (invariant + refinement to a whole-string spec, unbounded) + differential correspondence with the real code",
 }
 
-REQUIRED = ["KV.C18.window_inv", "KV.C18.op_transparent", "KV.C18.transcript_fn", "KV.C18.after_eof",
-            "KV.C18.shift_progress", "KV.C18.compressed_concat", "KV.C18.tokenizer_total"]
+REQUIRED = ["KV.C18.kSpaces_table", "KV.C18.initMapSize_observed", "KV.C18.window_inv", "KV.C18.op_transparent",
+            "KV.C18.transcript_fn", "KV.C18.after_eof", "KV.C18.shift_progress", "KV.C18.ops_terminate",
+            "KV.C18.compressed_concat", "KV.C18.tokenizer_total", "KV.C18.lineIterator_total",
+            "KV.C18.Old.offset_after_compaction", "KV.C18.Old.spurious_eof", "KV.C18.Old.not_transparent"]
 
 UTIL_SRCS = ["file_piece.cc", "read_compressed.cc", "file.cc", "mmap.cc", "exception.cc", "ersatz_progress.cc",
              "spaces.cc", "scoped.cc", "parallel_read.cc", "integer_to_string.cc"]
@@ -264,25 +266,31 @@ def run_case(ctx, T, r, ci, found_classes, numbers=True, nan=False):
     plain = gen_data(r, nan=nan)
     ops = gen_ops(r, plain, numbers)
     mbs = [0, 1, 4095, 4096, 5000, 8192, 12287, 20000, 65536]
-    backends = []   # (name, hkind, mkind, codec, exact)
+    backends = []   # (name, hkind, mkind, codec, exact, shim, min_buffer)
     shim_modes = [(1, 0, 1), (2, 0, PAGE - 1), (3, r.randrange(1 << 32), r.choice([2, 7, 100, 4096, 9000, 70000]))]
-    backends.append(("file", "file", "file", "plain", True, (0, 0, 1)))
+    backends.append(("file", "file", "file", "plain", True, (0, 0, 1), r.choice(mbs)))
     if len(plain) + 4096 <= 1000000:
-        backends.append(("pipe", "pipe", "pipe", "plain", True, (0, 0, 1)))
+        backends.append(("pipe", "pipe", "pipe", "plain", True, (0, 0, 1), r.choice(mbs)))
         sm = r.choice(shim_modes)
-        backends.append(("pipe+shim%d" % sm[0], "pipe", "pipe", "plain", True, sm))
-    backends.append(("istream", "istream", "lazy", "plain", True, (0, 0, 1)))
+        backends.append(("pipe+shim%d" % sm[0], "pipe", "pipe", "plain", True, sm, r.choice(mbs)))
+    backends.append(("istream", "istream", "lazy", "plain", True, (0, 0, 1), r.choice(mbs)))
     codecs = ["gz", "bz2", "xz", "cat"]
     r.shuffle(codecs)
     ncomp = 2 if ctx.tier == "quick" else 4
     for c in codecs[:ncomp]:
         hk = r.choice(["file", "pipe"])
         sm = r.choice([(0, 0, 1), (2, 0, PAGE - 1), shim_modes[2], (1, 0, 1) if len(plain) < 3000 else (0, 0, 1)])
-        backends.append((c + ":" + hk + ("+shim%d" % sm[0] if sm[0] else ""), hk, "lazy" if hk == "file" else "pipe", c, False, sm))
+        backends.append((c + ":" + hk + ("+shim%d" % sm[0] if sm[0] else ""), hk, "lazy" if hk == "file" else "pipe", c, False, sm,
+                         r.choice(mbs)))
+    return eval_case(ctx, T, r, plain, ops, backends, found_classes, sample=ci < 3)
+
+
+def eval_case(ctx, T, r, plain, ops, backends, found_classes, sample=False, raws=None):
     hl, dl, meta = [], [], []
-    for name, hk, mk, codec, exact, sm in backends:
-        mb = r.choice(mbs)
-        if codec == "plain":
+    for bi, (name, hk, mk, codec, exact, sm, mb) in enumerate(backends):
+        if raws is not None and raws[bi] is not None:
+            raw = raws[bi]
+        elif codec == "plain":
             raw = plain
         else:
             raw, members = compress_members(r, plain, codec)
@@ -308,10 +316,18 @@ def run_case(ctx, T, r, ci, found_classes, numbers=True, nan=False):
                       {"stream": "filepiece", "stderr": de[-1500:], "plain_hex": plain[:2000].hex(), "ops": ops[:50]}, no_input=True)
         return True
     if rc1 != 0:
-        # find the block in which the harness died
-        ctx.violation("harness died on a filepiece script (rc=%s): %s" % (rc1, he[-600:]),
-                      {"stream": "filepiece", "stderr": he[-3000:], "plain_hex": plain.hex()[:200000], "ops": ops,
-                       "backends": [m[0] for m in meta], "lines_done": len(ho)})
+        summ = [l for l in he.splitlines() if l.startswith("SUMMARY:") or "runtime error:" in l]
+        cls = "harness-died:" + (summ[0].split(" in ")[0].replace(REPO, "") if summ else str(rc1))
+        if cls in found_classes:
+            return True
+        found_classes.add(cls)
+        # the block in which the harness died
+        blk = [m for m in meta if m[8] <= len(ho)]
+        ctx.violation("the real code crashed / was stopped by the sanitizers on a filepiece script (rc=%s): %s; %s" % (
+                          rc1, summ[0] if summ else he[-300:], "backend " + blk[-1][0] if blk else ""),
+                      {"stream": "filepiece", "class": cls, "stderr": he[-3000:], "plain_hex": plain.hex()[:200000], "ops": ops,
+                       "backends": [m[0] for m in meta], "raw_hex_of_failing_backend": blk[-1][7].hex()[:200000] if blk else None,
+                       "lines_done": len(ho)})
         return True
     reference = None
     for name, hk, mk, codec, exact, sm, mb, raw, h0, hn, d0, dn in meta:
@@ -324,9 +340,9 @@ def run_case(ctx, T, r, ci, found_classes, numbers=True, nan=False):
         ctx.hist("fp.shim", sm[0])
         # independent oracle: all backends agree with each other on the canonical transcript
         canon_t = [canon(op, x) for op, x in zip(ops, hout[2:])]
-        if reference is None:
-            reference = (name, canon_t)
         bad = compare_block(ops, hout, dout, exact)
+        if bad is None and reference is None:
+            reference = (name, canon_t)
         if bad is None and canon_t != reference[1]:
             i = stream.first_diff(canon_t, reference[1])
             bad = (i, "backends", hout[2 + i], None, reference[1][i])
@@ -338,7 +354,7 @@ def run_case(ctx, T, r, ci, found_classes, numbers=True, nan=False):
         # which code does the implementation follow?  (faithful model of today's tree = `old`)
         follows = None
         if exact:
-            for variant in ("old", "H", "I"):
+            for variant in ("new", "old", "H", "I"):
                 h2, d2 = block_lines(plain, raw, hk, mk, mb, sm, ops, variant)
                 rcv, dov, _ = T.driver(d2)
                 if rcv == 0 and len(dov) == len(d2) and all(
@@ -373,8 +389,10 @@ def run_case(ctx, T, r, ci, found_classes, numbers=True, nan=False):
                 "backends": "backends disagree with each other",
                 "missing": "missing output", "open": "open failed"}[kind]
         what += " [%s] backend=%s min_buffer=%d op=%r: impl %r, spec %r" % (cls, name, mb, op, impl, spec)
-        if follows:
-            what += "; the implementation follows the model variant %r (faithful model of the unrepaired code: H = Offset() after ReadShift compaction, I = peek/get EOF test)" % follows
+        if follows == "new":
+            what += "; the implementation follows the window model exactly, so the deviation is in what the model takes as a parameter (the number grammar: result not a function of the token alone)"
+        elif follows:
+            what += "; the implementation follows the window model variant %r = the faithful model of the unrepaired code (old: neither repair, H: only Offset()-after-compaction repaired, I: only the peek/get EOF test repaired; see Properties/C18 section Old)" % follows
         hrep, drep = block_lines(plain, raw, hk, mk, mb, sm, small, "new" if exact else "spec")
         rpath = os.path.join(ctx.replay_dir, "data_%s.bin" % sha(raw))
         os.makedirs(ctx.replay_dir, exist_ok=True)
@@ -388,13 +406,37 @@ def run_case(ctx, T, r, ci, found_classes, numbers=True, nan=False):
                              "or python3 check.py C18 --replay <this file>" % (hk, mb, sm[0], sm[1], sm[2])}
         if ctx.violation(what, rep, key=key):
             found = True
-    if ci < 3:
+    if sample:
         ctx.sample({"stream": "filepiece", "plain_len": len(plain), "ops": ops[:10], "backends": [m[0] for m in meta],
                     "impl": ho[2:8]})
     return found
 
 
-def rc_cases(ctx, T, r, n):
+def directed_cases(ctx, T, r, found_classes):
+    """The witnesses of the `Old` theorems scaled to the real page size, and other past failures; run first."""
+    found = False
+    # I: Properties/C18 `Old.spurious_eof` (page 4 -> 4096)
+    found |= eval_case(ctx, T, r, b"a" * 8191 + b"\n" + b"b" * 4096, ["L 10 1", "G", "G"],
+                       [("file", "file", "file", "plain", True, (0, 0, 1), 1),
+                        ("pipe", "pipe", "pipe", "plain", True, (0, 0, 1), 1)], found_classes)
+    # H: Properties/C18 `Old.offset_after_compaction`
+    found |= eval_case(ctx, T, r, b"ab " + b"c" * 8200 + b"\nrest\n", ["D sp", "D sp", "L 10 1"],
+                       [("pipe", "pipe", "pipe", "plain", True, (0, 0, 1), 1),
+                        ("file", "file", "file", "plain", True, (0, 0, 1), 1),
+                        ("istream", "istream", "lazy", "plain", True, (0, 0, 1), 1)], found_classes)
+    # NaN is accepted only when the window's last space directly follows it (known finding)
+    found |= eval_case(ctx, T, r, b"xxxxx NaN 1\n", ["D sp", "F", "D sp"],
+                       [("pipe+shim1", "pipe", "pipe", "plain", True, (1, 0, 1), 1),
+                        ("pipe", "pipe", "pipe", "plain", True, (0, 0, 1), 1)], found_classes)
+    # a member that decodes to nothing in the middle of a chain (StreamCompressed::Read forwards to the next reader)
+    raw = gzip.compress(b"", mtime=0) + gzip.compress(b"x y\n", mtime=0) + bz2.compress(b"") + lzma.compress(b"z\n", format=lzma.FORMAT_XZ)
+    found |= eval_case(ctx, T, r, b"x y\nz\n", ["D sp", "L 10 1", "L 10 1", "G"],
+                       [("cat:file", "file", "lazy", "cat", False, (0, 0, 1), 1),
+                        ("cat:pipe", "pipe", "pipe", "cat", False, (0, 0, 1), 1)], found_classes, raws=[raw, raw])
+    return found
+
+
+def rc_cases(ctx, T, r, n, found_classes):
     """ReadCompressed::Read with arbitrary request sizes through member chains: the concatenation
     equals the plain bytes, 0 only at the true end, never more than requested."""
     found = False
@@ -414,7 +456,15 @@ def rc_cases(ctx, T, r, n):
         ctx.count(("rc", sha(raw), amount, sm), nontrivial=codec != "plain" and len(plain) > 0)
         ctx.hist("rc.codec", codec)
         if rc != 0 or len(out) < 2 or out[1] != want:
-            ctx.violation("ReadCompressed::Read does not yield the concatenated decoded members",
+            found = True
+            summ = [l for l in err.splitlines() if l.startswith("SUMMARY:") or "runtime error:" in l]
+            cls = "rc:" + (summ[0].split(" in ")[0].replace(REPO, "") if summ else "wrong-bytes")
+            if rc != 0 and summ:
+                cls = "harness-died:" + summ[0].split(" in ")[0].replace(REPO, "")
+            if cls in found_classes:
+                continue
+            found_classes.add(cls)
+            ctx.violation("ReadCompressed::Read does not yield the concatenated decoded members" + (": " + summ[0] if summ else ""),
                           {"stream": "readcompressed", "codec": codec, "amount": amount, "shim": sm, "raw_hex": raw.hex()[:100000],
                            "impl": out[1:] if rc == 0 else err[-800:], "expected": want})
             found = True
@@ -486,9 +536,10 @@ def run(ctx):
     found = False
     classes = set()
     n = 36 if ctx.tier == "quick" else 500
+    found |= directed_cases(ctx, T, ctx.rng, classes)
     for ci in range(n):
         found |= run_case(ctx, T, ctx.rng, ci, classes, numbers=True, nan=(ci % 12 == 11))
-    found |= rc_cases(ctx, T, ctx.rng, 40 if ctx.tier == "quick" else 600)
+    found |= rc_cases(ctx, T, ctx.rng, 40 if ctx.tier == "quick" else 600, classes)
     found |= tok_cases(ctx, T, ctx.rng, 200 if ctx.tier == "quick" else 5000)
     ctx.cov["rule"] = ("filepiece: one evaluation = one (input, op script, backend, min_buffer, read-size pattern); non-trivial when the "
                        "input exceeds two pages and the script has >= 10 operations; distinct by all of these. Inputs: tokens, "
